@@ -482,6 +482,9 @@ fn free_round_c02(seed: u64, pm: u64) -> Result<(u64, u64, u64), (&'static str, 
 
 /// the same round on the async-lock flavour (writers drive their futures with a park/unpark executor)
 fn free_round_c02_async(seed: u64, pm: u64) -> Result<(u64, u64, u64), (&'static str, String)> {
+    if STUCK_SEEN.load(AO::SeqCst) {
+        return Err(("STUCK", "skipped: an earlier future of the async-lock flavour got stuck".into()));
+    }
     install_hook();
     let mut rng = Rng::new(seed);
     let n_subs = rng.range(1, 3);
@@ -555,7 +558,11 @@ fn free_round_c02_async(seed: u64, pm: u64) -> Result<(u64, u64, u64), (&'static
     }
     drop(ob);
     for w in writers {
-        w.join().map_err(|_| ("C02", "writer thread panicked".to_string()))?;
+        if w.join().is_err() {
+            // release the subscribers before reporting
+            quiesce.set();
+            return Err(("STUCK", "an async writer did not finish (stuck future or panic)".to_string()));
+        }
     }
     quiesce.set();
     let mut tot = (0, 0, 0);
@@ -583,6 +590,11 @@ pub fn run_free_c02(prop: &str, p: &Params, n: u64) -> Outcome {
                 out.ev.add("free_wakes_observed", wakes);
                 if pend > 0 {
                     out.ev.nontrivial(hash_of(&(s, ready, pend)));
+                }
+            }
+            Err((vp, what)) if vp == "STUCK" => {
+                if out.inconclusive.len() < 3 {
+                    out.inconclusive.push(format!("free-running round {s}: {what}"))
                 }
             }
             Err((vp, what)) => {
@@ -1190,21 +1202,44 @@ fn round_w3(seed: u64, pm: u64) -> Result<(usize, usize), String> {
 // ---------------------------------------------------------------------------------------------
 // async flavour under threads: each thread drives its futures with a park/unpark executor
 
-fn block_on_park<F: Future>(f: F) -> F::Output {
+/// Drives a future on the calling thread, parking between polls. A future that is neither ready nor
+/// woken for 8 s of wall-clock time is reported as STUCK - which is an INCONCLUSIVE outcome for the
+/// round (a deadline is never a verdict), but it must not hang the whole check.
+static STUCK_SEEN: AtomicBool = AtomicBool::new(false);
+
+fn try_block_on_park<F: Future>(f: F) -> Result<F::Output, String> {
+    if STUCK_SEEN.load(AO::SeqCst) {
+        return Err("STUCK: skipped, an earlier future of the async-lock flavour got stuck".into());
+    }
     let mut f = pin!(f);
     loop {
         let (flag, w) = pause_waker(true);
         let mut cx = Context::from_waker(&w);
         if let Poll::Ready(v) = f.as_mut().poll(&mut cx) {
-            return v;
+            return Ok(v);
         }
+        let t0 = Instant::now();
         while !flag.woken() {
             std::thread::park_timeout(Duration::from_millis(2));
+            if t0.elapsed() > Duration::from_secs(8) || STUCK_SEEN.load(AO::SeqCst) {
+                STUCK_SEEN.store(true, AO::SeqCst);
+                return Err("STUCK: a future of the async-lock flavour was neither ready nor woken for 8 s".into());
+            }
         }
     }
 }
 
+fn block_on_park<F: Future>(f: F) -> F::Output {
+    match try_block_on_park(f) {
+        Ok(v) => v,
+        Err(e) => panic!("{e}"),
+    }
+}
+
 fn round_w1_async(seed: u64, pm: u64) -> Result<(usize, usize), String> {
+    if STUCK_SEEN.load(AO::SeqCst) {
+        return Err("STUCK: skipped, an earlier future of the async-lock flavour got stuck".into());
+    }
     install_hook();
     let mut rng = Rng::new(seed);
     let threads = rng.range(2, 4);
@@ -1270,7 +1305,7 @@ fn round_w1_async(seed: u64, pm: u64) -> Result<(usize, usize), String> {
     start.wait();
     let mut recs = vec![];
     for h in hs {
-        recs.extend(h.join().map_err(|_| "worker panicked".to_string())?);
+        recs.extend(h.join().map_err(|_| "STUCK or panicked: an async worker did not finish".to_string())?);
     }
     let fin = block_on_park(ob.get());
     drop(ob);
@@ -1342,6 +1377,11 @@ pub fn run_rounds(
                 out.ev.nontrivial(hash_of(&(gen_name, s, events)));
                 if out.ev.samples.len() < 2 {
                     out.ev.sample(json!({"workload": gen_name, "round_seed": s, "threads": threads, "recorded_events": events, "yield_per_mille": pm}));
+                }
+            }
+            Err(what) if what.starts_with("STUCK") => {
+                if out.inconclusive.len() < 3 {
+                    out.inconclusive.push(format!("round {gen_name} {s}: {what}"))
                 }
             }
             Err(what) => out.violations.push(Violation {
